@@ -18,6 +18,7 @@ import (
 
 // Plan says how deep one tier explores a scenario.
 type Plan struct {
+	Wide   bool  // wide scenarios: every alternative beyond the first of a thread also costs one deviation
 	Delay  bool  // count deviations as delays (skipped runnable threads) instead of preemptions
 	Bounds []int // deviation bounds run in order (-1 = unbounded); the last one may be sharded
 	Shards int   // processes for the last bound (0/1 = in-process)
@@ -77,7 +78,7 @@ func plan(s *Scenario) Plan {
 }
 
 func cfgFor(s *Scenario, bound, shard, n int) vsched.Config {
-	return vsched.Config{Name: s.Name, Bound: bound, Delay: plan(s).Delay, Sleep: bound < 0 && !s.NoSleep && os.Getenv("VERIF_SLEEP") != "0", TimersLive: s.TimersLive, AllowPanic: s.AllowPanic, AllowRace: s.AllowRace,
+	return vsched.Config{Name: s.Name, Bound: bound, Delay: plan(s).Delay, AltCost: plan(s).Wide, Sleep: bound < 0 && !s.NoSleep && os.Getenv("VERIF_SLEEP") != "0", TimersLive: s.TimersLive, AllowPanic: s.AllowPanic, AllowRace: s.AllowRace,
 		Deadline: vcommon.Deadline(), Shard: shard, NShards: n}
 }
 
